@@ -307,6 +307,11 @@ def apply_op(desc, cur, other, op):
             ret = cur.seek(x)
         elif k == "seek_index":
             ret = cur.seek_index(op[1])
+        elif k == "ll_seek":
+            x = pos_float(desc, op[1])
+            ret = cur._ll_tree.seek(x)
+        elif k == "ll_seek_index":
+            ret = cur._ll_tree.seek_index(op[1])
         elif k == "copy":
             other, cur = cur, cur.copy()
         elif k == "swap":
@@ -545,6 +550,17 @@ def oracle_steps(desc, opts, tab, states, fresh, ops, steps, tag=""):
                 exp_idx = i % T
             else:
                 exp_exc = "IndexError"
+        elif k == "ll_seek":            # only the C guard of tsk_tree_seek
+            e = expected_tree_of(tab, desc, op[1])
+            if e is None:
+                exp_exc = "LibraryError"
+            else:
+                exp_idx = e
+        elif k == "ll_seek_index":      # only the C guard of tsk_tree_seek_index
+            if 0 <= op[1] < T:
+                exp_idx = op[1]
+            else:
+                exp_exc = "LibraryError"
         elif k == "copy":
             idx_other = idx_cur
         elif k == "swap":
@@ -562,7 +578,7 @@ def oracle_steps(desc, opts, tab, states, fresh, ops, steps, tag=""):
         if k in ("next", "prev") and exc is None:
             if ret not in (0, 1) or (ret == 0) != (st["index"] == -1):
                 fails.append(("return-value:%s" % k, "%s returned %r, index now %d" % (where, ret, st["index"])))
-        if k == "seek" and exc is None:
+        if k in ("seek", "ll_seek") and exc is None:
             x = pos_float(desc, op[1])
             if not (ivf[0] <= x < ivf[1]):
                 fails.append(("seek-not-in-interval", "%s: x=%r interval=%r" % (where, x, ivf)))
@@ -625,9 +641,12 @@ def random_ops(rng, desc, T, n):
             if r < 0:
                 break
         if name == "seek":
-            ops.append(["seek", random_pos(rng, desc)])
+            ops.append(["ll_seek" if rng.random() < 0.15 else "seek", random_pos(rng, desc)])
         elif name == "seek_index":
-            if rng.random() < 0.85:
+            if rng.random() < 0.12:
+                # ids below -1 are rejected by tsk_id_converter (_tskitmodule.c) before the C library is reached
+                ops.append(["ll_seek_index", rng.choice([rng.randrange(0, T), rng.randrange(-1, T + 2)])])
+            elif rng.random() < 0.85:
                 ops.append(["seek_index", rng.randrange(-T, T)])
             else:
                 ops.append(["seek_index", rng.choice([T, -T - 1, T + 5, -T - 7])])
@@ -780,7 +799,7 @@ class NavExhaustive(Family):
 
     def descs(self, rng, tier):
         out = list(special_descs())
-        n = 2 if tier == "quick" else 40
+        n = 1 if tier == "quick" else 6
         while len(out) < len(special_descs()) + n:
             d = many_trees_desc(rng, max_nodes=5, max_segs=4, max_sites=2)
             if rng.random() < 0.3:
@@ -794,11 +813,12 @@ class NavExhaustive(Family):
         # thorough: full alphabet x length 4, core alphabet x length 5 (<= 4 trees)
         for d in self.descs(rng, tier):
             T = num_trees_of(d)
-            plans = [("full", 3), ("core", 4)] if tier == "quick" else [("full", 4), ("core", 5)]
+            if tier == "quick":
+                plans = [("full", 3)] + ([("core", 4)] if T <= 3 else [])
+            else:
+                plans = [("full", 4 if T <= 3 else 3), ("core", 5 if T <= 2 else 4)]
             for kind, length in plans:
                 alpha = exh_alphabet(d, kind)
-                if kind == "core" and T > (3 if tier == "quick" else 4):
-                    continue
                 opts = random_opts(rng, d)
                 for pre in sequences(alpha, length - 2):
                     yield {"desc": d, "opts": opts, "prefix": pre, "length": length, "alphabet": kind}
@@ -1015,6 +1035,10 @@ def coq_op(desc, op):
         return "(OpSeek %s)" % coq_coord(desc, op[1])
     if k == "seek_index":
         return "(OpSeekIndex %s)" % cz(op[1])
+    if k == "ll_seek":
+        return "(OpLLSeek %s)" % coq_coord(desc, op[1])
+    if k == "ll_seek_index":
+        return "(OpLLSeekIndex %s)" % cz(op[1])
     return {"first": "OpFirst", "last": "OpLast", "next": "OpNext", "prev": "OpPrev",
             "clear": "OpClear", "copy": "OpCopy", "swap": "OpSwap"}[k]
 
@@ -1038,19 +1062,19 @@ def model_ops(rng, desc, T, n):
     ops = random_ops(rng, desc, T, n)
     out = []
     for op in ops:
-        if op[0] == "seek":
+        if op[0] in ("seek", "ll_seek"):
             r = rng.random()
             if r < 0.85:
-                op = ["seek", ["h", rng.randrange(0, 2 * L)]]
+                op = [op[0], ["h", rng.randrange(0, 2 * L)]]
             elif r < 0.9:
-                op = ["seek", ["h", rng.choice([-1, -2, 2 * L, 2 * L + 1])]]
+                op = [op[0], ["h", rng.choice([-1, -2, 2 * L, 2 * L + 1])]]
             elif r < 0.95:
-                op = ["seek", ["h", rng.choice([0, 2 * L - 1, L, L + 1, L - 1])]]
+                op = [op[0], ["h", rng.choice([0, 2 * L - 1, L, L + 1, L - 1])]]
                 if not 0 <= op[1][1] < 2 * L:
-                    op = ["seek", ["h", 0]]
+                    op = [op[0], ["h", 0]]
             else:
                 out.append(["clear"])
-                op = ["seek", ["raw", "nan"]]        # from the null state: returns (finding F4)
+                op = [op[0], ["raw", "nan"]]         # from the null state: returns (finding F4)
         out.append(op)
     return out[:n]
 
@@ -1106,7 +1130,7 @@ class Model(Family):
     def oracle(self, case, obs):
         # the oracle of this family is the same as nav_random's except for NaN (seek_nan family)
         ops = case["ops"]
-        if any(op[0] == "seek" and op[1][0] == "raw" for op in ops):
+        if any(op[0] in ("seek", "ll_seek") and op[1][0] == "raw" for op in ops):
             return []
         return oracle_steps(case["desc"], case["opts"], obs["tab"], obs["states"], obs["fresh"],
                             ops, obs["steps"])
@@ -1150,7 +1174,7 @@ class ModelExhaustive(Model):
 
     def generate(self, rng, tier):
         descs = [d for d in special_descs() if num_trees_of(d) <= 3]
-        n = 2 if tier == "quick" else 12
+        n = 1 if tier == "quick" else 6
         while n > 0:
             d = many_trees_desc(rng, max_nodes=5, max_segs=3, max_sites=2, scale=rng.choice([1, 0.5, 2.5]))
             if rng.random() < 0.3:
